@@ -311,7 +311,7 @@ theorem callGas_underflow_harmless (avail base : Nat) (cc : Word) (m : Mem) (g :
     omega
 
 /-- non-vacuity: 5 gas left, 9000 base cost (value transfer), all gas requested -/
-example := callGas_underflow_harmless 5 9000 (2 ^ 64 - 1) Mem.empty ⟨[], 0, #[]⟩ (by decide) (by decide)
+example := callGas_underflow_harmless 5 9000 (2 ^ 64 - 1) Mem.empty (Global.start []) (by decide) (by decide)
 
 /-- When the step is affordable, what the call family charges is `base + forwarded`,
     the forwarded part obeys the 63/64 rule, and nothing wrapped. -/
@@ -336,7 +336,7 @@ theorem finishCall_ok (avail base : Nat) (cc : Word) (m m' : Mem) (g g' : Global
     refine ⟨?_, hle, hcg, rfl, rfl⟩
     omega
 
-example : finishCall 10000 700 (2 ^ 200) Mem.empty ⟨[], 0, #[]⟩ = .ok (700 + 9155) Mem.empty ⟨[], 0, #[]⟩ 9155 := by
+example : finishCall 10000 700 (2 ^ 200) Mem.empty (Global.start []) = .ok (700 + 9155) Mem.empty (Global.start []) 9155 := by
   rfl
 
 end Rangers.Props.C11B
